@@ -21,7 +21,7 @@ RULE = ("v3 vectors generated from own grammar tables; a case is one accepted ve
         "property (2 x 2,592 x 100 base/temporal spellings and 2 x 2,592 x 27 x 48 environmental cases).")
 
 
-def check_vector(P, vec, variants=False, tag=None):
+def check_vector(P, vec, variants=False, tag=None, channels=False):
     """Judge one v3 vector string (must be ACCEPTable by the grammar)."""
     L = lib()
     P.evaluations += 1
@@ -62,6 +62,8 @@ def check_vector(P, vec, variants=False, tag=None):
             if not same:
                 P.violation("attr-vs-scores", "C01:attribute-differs:" + slot, {"vector": vec},
                             observed=repr(a), scores=repr(got))
+    if channels or P.evaluations % 5 == 0 or (any(k in m for k in T.GROUPS["3"]["temporal"]) != any(k in m for k in T.GROUPS["3"]["environmental"])):
+        obs.check_score_channels(P, "C01", o, vec, got)
     if variants and not bad:
         for name in ref3.VARIANTS:
             if ref3.scores(minor, m, variant=name) != exp:
@@ -75,7 +77,7 @@ def check_case(P, case):
     if "spellings" in case:
         check_fd(P, case["spellings"])
     else:
-        check_vector(P, case["vector"], variants=True)
+        check_vector(P, case["vector"], variants=True, channels=True)
 
 
 def check_fd(P, spellings):
